@@ -191,6 +191,7 @@ func unsupported(format string, a ...interface{}) {
 // ---------------------------------------------------------------- executor
 
 type Exec struct {
+	modDepth      int // nesting of fnModifies through uncontracted helpers
 	prog          *Program
 	u             *Univ
 	cs            *ContractSet
@@ -728,11 +729,65 @@ func (ex *Exec) invEnv(fr *Frame, st *State, blk *ssa.BasicBlock) *Env {
 			}
 		}
 	}
+	if _, have := env.vars["rangeindex"]; !have {
+		// `for i := 0; i < n; i++` read as a range loop: at the loop head the counter is the number of completed
+		// iterations, which in the lowering of `for i := range s` is rangeindex+1 - so invariants written with
+		// rangeindex keep their meaning when one loop form is rewritten into the other
+		var cand *ssa.Phi
+		n := 0
+		for _, in := range blk.Instrs {
+			phi, ok := in.(*ssa.Phi)
+			if !ok {
+				break
+			}
+			if isCountedFromZero(phi) {
+				cand = phi
+				n++
+			}
+		}
+		if n == 1 {
+			if v, ok := fr.regs[cand]; ok {
+				tv := ex.valTV(v, cand.Type(), st)
+				if tv.S == "Int" {
+					env.vars["rangeindex"] = TV{"(- " + tv.T + " 1)", "Int"}
+				}
+			}
+		}
+	}
 	if fr.loopEntry != nil {
 		env.loopEntry = fr.loopEntry[blk]
 	}
 	ex.addIterVars(env, st)
 	return env
+}
+
+// isCountedFromZero: an integer phi with one edge the constant 0 and every other edge `phi + 1`.
+func isCountedFromZero(phi *ssa.Phi) bool {
+	if b, ok := phi.Type().Underlying().(*types.Basic); !ok || b.Info()&types.IsInteger == 0 {
+		return false
+	}
+	zero, inc := 0, 0
+	for _, e := range phi.Edges {
+		switch x := e.(type) {
+		case *ssa.Const:
+			if x.Value != nil && x.Value.ExactString() == "0" {
+				zero++
+				continue
+			}
+			return false
+		case *ssa.BinOp:
+			if x.Op == token.ADD && x.X == phi {
+				if c, ok := x.Y.(*ssa.Const); ok && c.Value != nil && c.Value.ExactString() == "1" {
+					inc++
+					continue
+				}
+			}
+			return false
+		default:
+			return false
+		}
+	}
+	return zero == 1 && inc >= 1
 }
 
 func (ex *Exec) checkInvariants(fr *Frame, st *State, blk *ssa.BasicBlock, ord int, kind string) {
@@ -1012,6 +1067,19 @@ func (ex *Exec) calleeModifies(com *ssa.CallCommon) (mods []string, all bool) {
 			return c.Modifies, false
 		}
 		if callee.Pkg != nil && ex.prog.isRepoPkg(callee.Pkg.Pkg.Path()) {
+			// a helper without contract: executed from its body when small (its effects are those of its body),
+			// otherwise kept apart from module state only if it can reach no state change at all
+			if autoInlinable(callee) {
+				if ex.modDepth > 8 {
+					return nil, true
+				}
+				ex.modDepth++
+				defer func() { ex.modDepth-- }()
+				return ex.fnModifies(callee, map[*ssa.Function]bool{})
+			}
+			if ex.prog.mayChangeState(callee, ex.cs) == "" {
+				return nil, false
+			}
 			return nil, true
 		}
 		return nil, false
